@@ -71,4 +71,30 @@ theorem leaf_fits_local :
     bases.all (fun r => (leaves r).all (fun x => fitLocal (midRef r) (onlyMissing (midRef r) x) x)) = true := by
   decide +kernel
 
+/-! ### hydrogens placed by the superposition route of `add_hydrogens` (same selection loop) -/
+
+/-- run-time references at the three chain positions -/
+def posRefs (r : ResDef) : List ResDef :=
+  [[str "PEPTIDE"], [str "PEPTIDE", str "NTERM"], [str "PEPTIDE", str "CTERM"]].filterMap
+    (fun ps => P2P.Rigid.applyAll patches r ps)
+
+def hydrogens (r : ResDef) : List Str := r.names.filter (fun n => n.head? = some 'H')
+
+/-- the atoms present when hydrogens are added to a residue whose heavy atoms are complete:
+the heavy atoms, `N+1` / `C-1` where the reference has them, and the hydrogens listed before `h` -/
+def presentFor (r : ResDef) (h : Str) : List Str :=
+  heavyAll r ++ (hydrogens r).takeWhile (fun n => n ≠ h)
+
+/-- **Every hydrogen is fitted locally** when the heavy atoms are complete: for every definition,
+at every chain position, whichever of the earlier hydrogens exist, the three atoms a hydrogen is
+superposed on are pairwise at most two template bonds apart. (Checked for the two extreme presence
+patterns: no other hydrogen yet, and every hydrogen listed before it.) -/
+theorem hydrogen_fits_local :
+    bases.all (fun b => (posRefs b).all (fun r => (hydrogens r).all (fun h =>
+      fitLocal r (heavyAll r) h && fitLocal r (presentFor r h) h))) = true := by
+  decide +kernel
+
+theorem posRefs_complete : bases.all (fun b => (posRefs b).length = 3) = true := by
+  decide +kernel
+
 end P2P.Proofs.RepairFit
